@@ -9,8 +9,13 @@ is driven through four doors:
   body  `w(V1..Vk) :- S = T.` called as `w(_,..,_)`  (bindings handed back through unify_call_return)
 """
 import itertools
+import os
+import sys
 import vf
 import pl
+
+sys.path.insert(0, os.path.join(vf.VERIF, "gen"))
+import c14_unify  # noqa: E402
 
 META = {
     "id": "C14",
@@ -675,6 +680,379 @@ def classify(mode, s, t, expected, observed):
     return None
 
 
+
+
+# ---------------------------------------------------------------------------- the implementation's own algorithm
+# gen/c14_unify.py translates unify_value / _unify_call_head_single / unify_call_head of problog/engine_unify.py into
+# coq/theories/C14/GenUnify.v on every run; PropsImpl.v proves the translated unify_value correct under the decidable
+# guard `solved`; the translated functions are extracted and compared, input by input, with DIRECT calls of the real
+# Python functions (returned value, final bindings dictionary / clause context, exception class).
+def generate(ctx):
+    text = c14_unify.generate(vf.REPO)
+    ctx.generate("C14/GenUnify.v", text)
+    return text
+
+
+def optional_build(ctx, rel):
+    """Compile a file (with its cone) outside ctx.prove; returns (ok, tail of output)."""
+    vfile = os.path.join("theories", rel)
+    with vf.BuildLock():
+        cone = vf.coq_cone(vfile)
+        mk = vf.refresh_makefile(cone, "." + ctx.prop + "x")
+        rc, out = vf.sh(["make", "-f", mk, "-j4"] + [f[:-2] + ".vo" for f in cone], cwd=vf.COQ, timeout=900)
+    return rc == 0, out[-800:]
+
+
+IMPL_EXTRACT_V = """From Coq Require Import NArith ZArith List Extraction ExtrOcamlBasic.
+Require Import PL.C14.ModelUnify PL.C14.ModelImplUnify PL.C14.GenUnify.
+Extraction Language OCaml.
+Set Extraction Output Directory ".".
+Extraction "oracle.ml" unify_value unify_call_head solved sv_visible resolve.
+"""
+
+IMPL_DRIVER_ML = r"""
+open Oracle
+let rec pos_of_int n = if n = 1 then XH else if n land 1 = 1 then XI (pos_of_int (n lsr 1)) else XO (pos_of_int (n lsr 1))
+let n_of_int n = if n = 0 then N0 else Npos (pos_of_int n)
+let z_of_int n = if n = 0 then Z0 else if n > 0 then Zpos (pos_of_int n) else Zneg (pos_of_int (- n))
+let rec int_of_pos = function XH -> 1 | XO p -> 2 * int_of_pos p | XI p -> 2 * int_of_pos p + 1
+let int_of_n = function N0 -> 0 | Npos p -> int_of_pos p
+let int_of_z = function Z0 -> 0 | Zpos p -> int_of_pos p | Zneg p -> - (int_of_pos p)
+let rec nat_of_int n = if n = 0 then O else S (nat_of_int (n - 1))
+let mksym k i = match k with "a" -> SAtom (n_of_int i) | "i" -> SInt (z_of_int i) | "f" -> SFlt (n_of_int i)
+                           | "s" -> SStr (n_of_int i) | _ -> failwith "kind"
+let rec parse toks = match toks with
+  | "N" :: rest -> (PNone, rest)
+  | "V" :: n :: rest -> (PVar (n_of_int (int_of_string n)), rest)
+  | "A" :: k :: id :: nargs :: rest ->
+      let (l, rest') = parse_n (int_of_string nargs) rest [] in
+      (PTerm (mksym k (int_of_string id), l), rest')
+  | _ -> failwith "parse"
+and parse_n n toks acc = if n = 0 then (List.rev acc, toks) else
+      let (a, toks') = parse toks in parse_n (n - 1) toks' (a :: acc)
+let parse_list toks = match toks with
+  | n :: rest -> parse_n (int_of_string n) rest []
+  | _ -> failwith "list"
+let showsym b f n = match f with
+  | SAtom i -> Buffer.add_string b (Printf.sprintf "A a %d %d " (int_of_n i) n)
+  | SInt z -> Buffer.add_string b (Printf.sprintf "A i %d %d " (int_of_z z) n)
+  | SFlt i -> Buffer.add_string b (Printf.sprintf "A f %d %d " (int_of_n i) n)
+  | SStr i -> Buffer.add_string b (Printf.sprintf "A s %d %d " (int_of_n i) n)
+let rec show b v = match v with
+  | PNone -> Buffer.add_string b "N "
+  | PVar n -> Buffer.add_string b (Printf.sprintf "V %d " (int_of_n n))
+  | PTerm (f, l) -> showsym b f (List.length l); List.iter (show b) l
+let rec showt b t = match t with
+  | TVar v -> Buffer.add_string b (Printf.sprintf "V %d " (int_of_n v))
+  | TApp (f, l) -> showsym b f (List.length l); List.iter (showt b) l
+let show_list b l = Buffer.add_string b (Printf.sprintf "%d " (List.length l)); List.iter (show b) l
+let keycode k = match k with PVar n -> int_of_n n | _ -> -1
+let show_store b sv =
+  let vis = List.sort (fun (k1, _) (k2, _) -> compare (keycode k1) (keycode k2)) (sv_visible sv) in
+  List.iter (fun (k, u) -> show b k; Buffer.add_string b ":= "; show b u; Buffer.add_string b "| ") vis
+let exn_name = function UnifyError -> "UnifyError" | OccursCheck -> "OccursCheck" | AssertionError -> "AssertionError"
+let fuel = nat_of_int 400
+let () =
+  try
+    while true do
+      let line = input_line stdin in
+      let toks = List.filter (fun s -> s <> "") (String.split_on_char ' ' line) in
+      let b = Buffer.create 256 in
+      (match toks with
+      | "uv" :: rest ->
+          let (s, r1) = parse rest in let (t, _) = parse r1 in
+          (match unify_value fuel s t [] with
+           | Ret (r, h) ->
+               Buffer.add_string b "R ; "; show b r; Buffer.add_string b "; "; show_store b h;
+               if solved h then (Buffer.add_string b "; 1 ; "; showt b (resolve h r)) else Buffer.add_string b "; 0 ; -"
+           | Raise e -> Buffer.add_string b ("X ; " ^ exn_name e)
+           | OutOfFuel -> Buffer.add_string b "F")
+      | "head" :: rest ->
+          let (call, r1) = parse_list rest in let (head, r2) = parse_list r1 in let (tc, _) = parse_list r2 in
+          (match unify_call_head fuel call head tc with
+           | Ret (res, (tc', sv)) ->
+               Buffer.add_string b "R ; "; show_list b res; Buffer.add_string b "; "; show_list b tc';
+               Buffer.add_string b "; "; show_store b sv
+           | Raise e -> Buffer.add_string b ("X ; " ^ exn_name e)
+           | OutOfFuel -> Buffer.add_string b "F")
+      | _ -> failwith "mode");
+      print_string (Buffer.contents b ^ "\n")
+    done
+  with End_of_file -> ()
+"""
+
+
+def var_code(v):
+    """Python engine variable (int) -> variable code of ModelImplUnify (PVar n)."""
+    return 2 * (-v - 1) if v < 0 else 2 * v + 1
+
+
+class ImplEnc:
+    """Terms for the translated model.  A functor is identified by what `Term.signature` keeps of it
+    (str(functor) without surrounding quotes): that is the only thing unify_value looks at."""
+
+    def __init__(self):
+        self.syms = {}
+        self.rev = {}
+
+    def sym(self, functor):
+        key = str(functor).strip("'")
+        if key not in self.syms:
+            self.syms[key] = len(self.syms)
+            self.rev[self.syms[key]] = key
+        return self.syms[key]
+
+    def toks(self, v, out):
+        """a Python value as the engine sees it: None | int | Term"""
+        if v is None:
+            out.append("N")
+        elif type(v) == int:
+            out.append("V %d" % var_code(v))
+        else:
+            out.append("A a %d %d" % (self.sym(v.functor), len(v.args)))
+            for a in v.args:
+                self.toks(a, out)
+        return out
+
+    def text(self, v):
+        return " ".join(self.toks(v, []))
+
+    def list_text(self, l):
+        return " ".join(["%d" % len(l)] + [self.text(x) for x in l])
+
+    def dict_text(self, d):
+        return " ".join("%s := %s |" % (self.text(k), self.text(d[k])) for k in sorted(d, key=var_code))
+
+    def dec_term(self, toks, i=0):
+        """model term (resolved instance) -> harness tuple form with signature-level constants"""
+        if toks[i] == 'V':
+            return ('v', int(toks[i + 1])), i + 2
+        ident, n = int(toks[i + 2]), int(toks[i + 3])
+        i += 4
+        if n == 0:
+            return ('k', 'a', self.rev[ident]), i
+        args = []
+        for _ in range(n):
+            a, i = self.dec_term(toks, i)
+            args.append(a)
+        return ('c', self.rev[ident], tuple(args)), i
+
+
+def sigview(t):
+    """harness tuple term -> the same term with every constant replaced by its `signature` spelling"""
+    if t[0] == 'k':
+        if t[1] == 'a':
+            return ('k', 'a', str(t[2]).strip("'"))
+        if t[1] == 'i':
+            return ('k', 'a', str(t[2]))
+        if t[1] == 'f':
+            return ('k', 'a', str(float(t[2])))
+        if t[1] == 's':
+            return ('k', 'a', '"%s"' % t[2])
+        return t
+    if t[0] == 'c':
+        return ('c', t[1], tuple(sigview(a) for a in t[2]))
+    return t
+
+
+def py_term(t, vmap, head=False):
+    """harness tuple term -> the value the engine hands to unify_value: variables are negative ints numbered by first
+    occurrence (head=True: clause-head variables 0,1,2,...), `_` is None (in a head: a fresh head variable)."""
+    from problog.logic import Term, Constant
+    k = t[0]
+    if k == 'v':
+        if t[1] not in vmap:
+            vmap[t[1]] = len(vmap) if head else -(len(vmap) + 1)
+        return vmap[t[1]]
+    if k == '_':
+        if head:
+            vmap[('anon', len(vmap))] = len(vmap)
+            return len(vmap) - 1
+        return None
+    if k == 'k':
+        if t[1] == 'a':
+            return Term("'%s'" % t[2]) if (len(t) > 3 and t[3]) else Term(t[2])
+        if t[1] == 'i':
+            return Constant(t[2])
+        if t[1] == 'f':
+            return Constant(float(t[2]))
+        return Constant('"%s"' % t[2])
+    return Term(t[1], *[py_term(a, vmap, head) for a in t[2]])
+
+
+def has_anon(t):
+    return t[0] == '_' or (t[0] == 'c' and any(has_anon(a) for a in t[2]))
+
+
+def call_direct(fn, *args):
+    """-> ('R', value) | ('X', exception class name) | ('F',) for RecursionError"""
+    try:
+        return ('R', fn(*args))
+    except RecursionError:
+        return ('F',)
+    except Exception as e:  # noqa
+        return ('X', type(e).__name__)
+
+
+def judge_direct(ctx, enc, exe, iexe, pairs, proved=True):
+    """Direct route.  For every pair (s, t):
+      uv    unify_value(s, t, {})                       vs  translated model (value, dictionary, exception)  and vs  mgu
+      head  unify_call_head([s], [t'], [None]*k)         (and argument-spread when both are compound of equal arity)
+            with t' = t read as a clause head            vs  translated model (result, context, dictionary)  and vs  call_fact
+    iexe None: the translated model is not available (translator failed); only the judge against the reference runs."""
+    from problog.engine_unify import unify_value, unify_call_head
+    old_limit = sys.getrecursionlimit()
+    sys.setrecursionlimit(1500)
+    ienc = ImplEnc()
+    reqs, ref_reqs, cases = [], [], []
+    sig_reqs = []        # the theorems' reference: mgu of the two terms with constants identified as `signature` does
+    for s, t in pairs:
+        # ---- unify_value
+        vmap = {}
+        ps, pt = py_term(s, vmap), py_term(t, vmap)
+        req = "uv %s %s" % (ienc.text(ps), ienc.text(pt))
+        d = {}
+        ob = call_direct(unify_value, ps, pt, d)
+        if ob[0] == 'R':
+            got = "R ; %s ; %s" % (ienc.text(ob[1]), ienc.dict_text(d))
+        elif ob[0] == 'X':
+            got = "X ; " + ob[1]
+        else:
+            got = "F"
+        out = ["inst"]
+        vm = {}
+        c = [0]
+        s2, t2 = named_anon(s, c), named_anon(t, c)
+        enc.enc(strip_quote(s2), vm, out)
+        enc.enc(strip_quote(t2), vm, out)
+        enc.enc(strip_quote(s2), vm, out)
+        cases.append(('uv', s, t, got, ob[0]))
+        reqs.append(req)
+        ref_reqs.append(" ".join(out))
+        out = ["inst"]
+        vm = {}
+        enc.enc(sigview(s2), vm, out)
+        enc.enc(sigview(t2), vm, out)
+        enc.enc(sigview(s2), vm, out)
+        sig_reqs.append(" ".join(out))
+        # ---- unify_call_head
+        forms = [((s,), (t,))]
+        if s[0] == 'c' and t[0] == 'c' and len(s[2]) == len(t[2]) and len(s[2]) > 1:
+            forms.append((s[2], t[2]))
+        for cargs, hargs in forms:
+            vmc, vmh = {}, {}
+            pc = [py_term(a, vmc) for a in cargs]
+            ph = [py_term(a, vmh, head=True) for a in hargs]
+            tc = [None] * len(vmh)
+            req = "head %s %s %s" % (ienc.list_text(pc), ienc.list_text(ph), ienc.list_text(tc))
+            ob = call_direct(unify_call_head, pc, ph, tc)
+            if ob[0] == 'R':
+                # the function's own dictionary is local: the model returns it, Python does not
+                got = "R ; %s ; %s" % (ienc.list_text(ob[1]), ienc.list_text(tc))
+            elif ob[0] == 'X':
+                got = "X ; " + ob[1]
+            else:
+                got = "F"
+            out = ["call"]
+            enc.enc(strip_quote(C('ans', *[named_anon(a, [0]) if False else a for a in cargs])), {}, out)
+            enc.enc(strip_quote(C('ans', *hargs)), {}, out)
+            cases.append(('head', C('ans', *cargs), C('ans', *hargs), got, ob[0]))
+            reqs.append(req)
+            ref_reqs.append(" ".join(out))
+            sig_reqs.append(" ".join(out))
+    sys.setrecursionlimit(old_limit)
+    model = ctx.oracle(iexe, reqs) if iexe else [None] * len(reqs)
+    ref = ctx.oracle(exe, ref_reqs)
+    sigref = ctx.oracle(exe, sig_reqs)
+
+    def norm(x):
+        return " ".join(x.split())
+    for (kind, s, t, got, tag), m, r, rq, r2 in zip(cases, model, ref, reqs, sigref):
+        key = ("direct-" + kind, canon(C('x', strip_quote(s), strip_quote(t))))
+        nontrivial = (s[0] == 'c' or t[0] == 'c') and bool(tvars(C('x', s, t)))
+        ctx.case(key, nontrivial, sample={"mode": "direct-" + kind, "s": text(s), "t": text(t), "python": got, "model": m})
+        ctx.count("mode_direct_" + kind)
+        ctx.count("direct_%s_python_%s" % (kind, {'R': 'returns', 'X': 'raises_' + got.split(";")[-1].strip(), 'F': 'RecursionError'}[tag]))
+        unif = r != 'N'
+        # ---- (a) implementation vs reference (the property's judge; concrete violations)
+        why = None
+        if tag == 'R' and not unif:
+            why = "returns a result although the terms have no unifier"
+        elif tag == 'X' and unif:
+            why = "raises %s although the terms are unifiable" % got.split(";")[-1].strip()
+        elif tag == 'X' and got.split(";")[-1].strip() not in ('UnifyError', 'OccursCheck'):
+            why = "raises %s" % got.split(";")[-1].strip()
+        elif tag == 'F':
+            why = "RecursionError (unbounded recursion)" + ("" if not unif else " although the terms are unifiable")
+        if why:
+            mode = 'neq' if kind == 'uv' else 'call'
+            if tag == 'F':
+                klass = classify(mode, s, t, True if mode == 'neq' else None, ('err', 'INTERNAL:RecursionError')) if not unif else None
+            elif tag == 'R':
+                klass = classify(mode, s, t, True if mode == 'neq' else None, ('ok', [] if mode == 'neq' else [('x',)]))
+            else:
+                klass = None
+            ctx.count("direct_disagree_" + str(klass))
+            seen = ctx.__dict__.setdefault("_c14_reported", {})
+            seen[("direct", klass)] = seen.get(("direct", klass), 0) + 1
+            if seen[("direct", klass)] <= (25 if klass is None else 2):
+                what = ("direct call unify_value(%s, %s, {}): %s" if kind == 'uv' else
+                        "direct call unify_call_head(call %s, head %s): %s") % (text(s), text(t), why)
+                ctx.violation(what, {"mode": "direct-" + kind, "s": text(s), "t": text(t), "s_term": s, "t_term": t,
+                                     "python": got, "model": m}, klass=klass)
+        # ---- (b) implementation vs translated model (the tie)
+        if m is None:
+            continue
+        mm = norm(m)
+        if kind == 'uv':
+            fields = [norm(x) for x in mm.split(";")]
+            cmp_model = " ; ".join(fields[:3]) if fields[0] == 'R' else mm
+            cmp_py = " ; ".join(norm(x) for x in got.split(";"))
+        else:
+            fields = [norm(x) for x in mm.split(";")]
+            cmp_model = " ; ".join(fields[:3]) if fields[0] == 'R' else mm
+            cmp_py = " ; ".join(norm(x) for x in got.split(";"))
+        if cmp_model != cmp_py:
+            ctx.count("direct_model_mismatch")
+            if sum(1 for b in ctx.broken if b.startswith("correspondence:direct")) < 5:
+                ctx.broken.append("correspondence:direct %s on %s / %s: python `%s` model `%s` (request %s)"
+                                  % (kind, text(s), text(t), cmp_py, cmp_model, rq))
+            continue
+        ctx.count("direct_model_agrees")
+        if kind == 'uv' and fields[0] == 'R':
+            solved = fields[3] == '1'
+            ctx.count("direct_uv_dictionary_" + ("solved" if solved else "NOT_solved"))
+            if has_anon(s) or has_anon(t) or not proved:
+                continue        # anonymous variables: outside the theorems' domain (nonone); theorems not proved for this source
+            unif2 = r2 != 'N'         # unifiable when constants are identified the way `signature` identifies them
+            if solved and not unif2:
+                ctx.broken.append("correspondence:theorem C14_impl_solved_is_mgu contradicted by the reference on %s / %s" % (text(s), text(t)))
+            if not solved and unif2:
+                # not covered by a theorem: a solved-form test that rejects a correct run would make the guard too strong
+                ctx.count("direct_uv_guard_rejects_correct_run")
+                ctx.broken.append("correspondence:guard `solved` false on a unifiable pair %s / %s" % (text(s), text(t)))
+            if solved and unif2:
+                inst, _ = ienc.dec_term(fields[4].split())
+                exp, _ = enc.dec(r2.split()[1:])
+                if canon(inst) != canon(sigview(exp)):
+                    ctx.count("direct_uv_resolved_instance_differs")
+                    ctx.broken.append("correspondence:resolved dictionary of %s / %s gives %s, mgu instance %s"
+                                      % (text(s), text(t), text_canon(canon(inst)), text_canon(canon(sigview(exp)))))
+                else:
+                    ctx.count("direct_uv_resolved_instance_is_mgu_instance")
+                    if fields[1] != " ".join(ienc.text(None).split()) and canon(inst) != canon(sigview_dec(ienc, fields[1])):
+                        ctx.count("direct_uv_returned_value_unresolved")
+
+
+def sigview_dec(ienc, toks_text):
+    """returned value (pval tokens without None) as a harness tuple term"""
+    toks = toks_text.split()
+    if 'N' in toks:
+        return ('k', 'a', '<contains None>')
+    t, _ = ienc.dec_term(toks)
+    return t
+
+
 # ---------------------------------------------------------------------------- the check
 def judge(ctx, enc, exe, cases):
     """cases: list of (mode, s, t).  Runs oracle + engine, reports."""
@@ -866,6 +1244,51 @@ def run(ctx):
     ok = ctx.prove("C14/Props.v")
     if ctx.tier == "thorough":
         ctx.coqchk("PL.C14.Props")
+    # ---- the implementation's algorithm: translator (fail-closed) -> GenUnify.v -> PropsImpl.v.  A source the translator
+    # does not understand, or one for which the proofs no longer go through, is a broken obligation, NOT the end of the
+    # check: the engine routes and the direct judge below still look for the concrete failing input.
+    model_ok = True
+    try:
+        generate(ctx)
+    except Exception as e:  # noqa  (TranslateError, SyntaxError, OSError ...)
+        model_ok = False
+        ctx.broken.append("translator:gen/c14_unify.py cannot translate engine_unify.py (%s: %s)" % (type(e).__name__, str(e)[:300]))
+        ctx.notes.append("translator failed: %s: %s" % (type(e).__name__, e))
+        ctx.log("translator failed: %s" % str(e)[:200])
+    iexe = None
+    impl_proved = False
+    if model_ok:
+        try:
+            impl_proved = bool(ctx.prove("C14/PropsImpl.v"))
+        except Exception as e:  # noqa
+            ctx.broken.append("proof-cone:C14/PropsImpl.v (%s: %s)" % (type(e).__name__, str(e)[:300]))
+        if ctx.tier == "thorough" and not ctx.broken:
+            ctx.coqchk("PL.C14.PropsImpl")
+        ctx.log("Props.v + PropsImpl.v: %d/%d" % (ctx.cov["discharged"], ctx.cov["obligations"]))
+        try:
+            okm, tail = optional_build(ctx, "C14/GenUnify.v")      # the model must run even when a proof broke
+            if okm:
+                iexe = ctx.ocaml_oracle("c14impl", IMPL_EXTRACT_V, IMPL_DRIVER_ML)
+            else:
+                ctx.broken.append("model:C14/GenUnify.v does not compile")
+                ctx.notes.append(tail)
+        except Exception as e:  # noqa
+            ctx.broken.append("model:C14/GenUnify.v oracle (%s: %s)" % (type(e).__name__, str(e)[:300]))
+        # Findings.v: the known defect classes reproduced on the translated code by vm_compute.  Outside the cone of
+        # the Props files; when it stops compiling a finding is gone (recorded, never a violation).
+        try:
+            okf, tail = optional_build(ctx, "C14/Findings.v")
+            ctx.cov["findings_files"] = {"C14/Findings.v": "compiles (known findings reproduced on the translated code)" if okf
+                                         else "does not compile (a known finding no longer reproduces on the translated code)"}
+        except Exception as e:  # noqa
+            ctx.cov["findings_files"] = {"C14/Findings.v": "not built: %s" % str(e)[:200]}
+    else:
+        try:
+            with open(os.path.join(vf.THEORIES, "C14", "PropsImpl.v")) as f:
+                import re
+                ctx.cov["obligations"] += len(re.findall(r"^\s*(?:Theorem|Corollary)\s", vf.strip_coq_comments(f.read()), re.M))
+        except OSError:
+            pass
     exe = ctx.ocaml_oracle("c14", EXTRACT_V, DRIVER_ML)
     enc = Enc()
     modes = ['eq', 'neq', 'call', 'callN', 'body']
@@ -874,17 +1297,22 @@ def run(ctx):
 
         def tup(x):
             return tuple(tup(y) for y in x) if isinstance(x, list) else x
-        judge(ctx, enc, exe, [(r["mode"], tup(r["s_term"]), tup(r["t_term"]))])
+        if str(r["mode"]).startswith("direct"):
+            judge_direct(ctx, enc, exe, iexe, [(tup(r["s_term"]), tup(r["t_term"]))] if r["mode"] == "direct-uv" else
+                         [(tup(r["s_term"])[2][0], tup(r["t_term"])[2][0])] if len(tup(r["s_term"])[2]) == 1 else
+                         [(tup(r["s_term"]), tup(r["t_term"]))], impl_proved)
+        else:
+            judge(ctx, enc, exe, [(r["mode"], tup(r["s_term"]), tup(r["t_term"]))])
         return
     # (0) regression corpus: hand-picked witnesses of each class
     import json
-    import os
 
     def tup(x):
         return tuple(tup(y) for y in x) if isinstance(x, list) else x
     with open(os.path.join(vf.CORPUS, "C14", "seeds.json")) as f:
         seeds = [(tup(a), tup(b)) for a, b in json.load(f)["pairs"]]
     judge(ctx, enc, exe, make_cases(seeds, modes))
+    judge_direct(ctx, enc, exe, iexe, seeds, impl_proved)
     # (1) bounded exhaustive
     if ctx.tier == "thorough":
         ts = terms_by_size(LEAVES_SMALL, 4)       # 312 terms -> 97 344 ordered pairs, a fixed-seed half of them
@@ -900,12 +1328,15 @@ def run(ctx):
         pairs += [(ctx.rng.choice(ts2), ctx.rng.choice(ts2)) for _ in range(1500)]
     ctx.cov["exhaustive_pairs"] = len(pairs)
     judge(ctx, enc, exe, make_cases(pairs, modes))
+    judge_direct(ctx, enc, exe, iexe, pairs, impl_proved)
     # (1b) aliasing family: flat argument vectors with variables repeated on both sides
     ap = alias_pairs_exhaustive() + [alias_pair_random(ctx.rng) for _ in range(ctx.n(2500, 30000))]
     ctx.cov["alias_pairs"] = len(ap)
     judge(ctx, enc, exe, make_cases(ap, modes))
+    judge_direct(ctx, enc, exe, iexe, ap, impl_proved)
     # (2) random larger pairs
     nrand = ctx.n(2500, 40000)
     rp = [rand_pair(ctx.rng, LEAVES_MED) for _ in range(nrand)]
     ctx.cov["random_pairs"] = len(rp)
     judge(ctx, enc, exe, make_cases(rp, modes))
+    judge_direct(ctx, enc, exe, iexe, rp, impl_proved)
